@@ -7,7 +7,83 @@ import (
 	"strings"
 )
 
-func registerStoreStubs(e *Engine) {}
+func registerStoreStubs(e *Engine) {
+	// the two unsafe one-liners of the marshaller are the conversions they stand for
+	e.reg(RepoModule+"/storage/store/marshaller.unsafeGetString", func(fr *frame, args []value) value { return mkstr(args[0].([]value)) })
+	e.reg(RepoModule+"/storage/store/marshaller.unsafeGetBytes", func(fr *frame, args []value) value {
+		b := strBytes(args[0])
+		out := make([]value, len(b))
+		copy(out, b)
+		return out
+	})
+	e.reg(RepoModule+"/storage/execout/pb.unsafeGetString", func(fr *frame, args []value) value { return mkstr(args[0].([]value)) })
+	// derr.RetryContext: f is called until it returns nil, at most retries+1 times, no sleeping
+	e.reg("github.com/streamingfast/derr.RetryContext", func(fr *frame, args []value) value {
+		n := asInt64c(args[1])
+		var last value = iface{}
+		for i := int64(0); i <= n; i++ {
+			last = fr.ex.call(fr, 0, args[2], []value{args[0]})
+			if li, ok := last.(iface); ok && li.t == nil {
+				return last
+			}
+		}
+		return last
+	})
+	e.reg("github.com/streamingfast/derr.Retry", func(fr *frame, args []value) value {
+		n := asInt64c(args[0])
+		var last value = iface{}
+		for i := int64(0); i <= n; i++ {
+			last = fr.ex.call(fr, 0, args[1], []value{uint64(i)})
+			if li, ok := last.(iface); ok && li.t == nil {
+				return last
+			}
+		}
+		return last
+	})
+	// opaque cursor encoding: an injective, invertible text mapping
+	e.reg("github.com/streamingfast/opaque.EncodeString", func(fr *frame, args []value) value {
+		return mkstr(append(strBytes("opq:"), strBytes(args[0])...))
+	})
+	e.reg("github.com/streamingfast/opaque.DecodeToString", func(fr *frame, args []value) value {
+		b := strBytes(args[0])
+		if len(b) >= 4 {
+			if c, ok := bytesOfConcrete(b[:4]); ok && string(c) == "opq:" {
+				return tuple{mkstr(b[4:]), iface{}}
+			}
+		}
+		if _, ok := args[0].(string); !ok {
+			panic(unsupported{"opaque.DecodeToString of a symbolic string"})
+		}
+		return tuple{"", mkError("invalid opaque string", nil)}
+	})
+	e.reg("io.ReadAll", func(fr *frame, args []value) value {
+		r := args[0].(iface)
+		var out []value
+		for i := 0; i < 1<<16; i++ {
+			buf := make([]value, 512)
+			for j := range buf {
+				buf[j] = uint8(0)
+			}
+			res, ok := fr.ex.callMethod(fr, r, "Read", buf)
+			if !ok {
+				panic(unsupported{"io.ReadAll on a reader without Read"})
+			}
+			t := res.(tuple)
+			n := int(asInt64c(t[0]))
+			out = append(out, buf[:n]...)
+			if e, isI := t[1].(iface); isI && e.t != nil {
+				if eqTerm(e, fr.ex.sentinel("io.EOF", "EOF")).IsTrue() {
+					if out == nil {
+						out = []value{}
+					}
+					return tuple{out, iface{}}
+				}
+				return tuple{out, e}
+			}
+		}
+		panic(unsupported{"io.ReadAll: reader never ends"})
+	})
+}
 
 // ---- strings.Builder (uses unsafe in the real implementation) ----
 
